@@ -57,7 +57,7 @@ def types(ph_states, ph_syms, ph_rules, ph_maxlen, ph_terms, ph_nterms):
 #define PH_TERMS %d
 #define PH_NTERMS %d
 /* ghost template parameters (R9): sizeof...(Terms), sizeof...(NTerms), sizeof...(Rules), max rule length, ... */
-size_t P_TERMS, P_NTERMS, P_RULES, P_MAXLEN, P_EMPTY, P_SUM_N1, P_STATE_CAP, P_SIT_CAP;
+size_t P_TERMS, P_NTERMS, P_RULES, P_MAXLEN, P_EMPTY, P_SUM_N1, P_STATE_CAP, P_SIT_CAP, P_BUFN;
 #define VX_PARAMS_OK (P_TERMS <= PH_TERMS - 2 && P_NTERMS <= PH_NTERMS - 1 && P_RULES <= PH_RULES - 1 && P_MAXLEN >= 1 && P_MAXLEN <= PH_MAXLEN \
    && P_EMPTY <= P_RULES && P_STATE_CAP >= 1 && P_STATE_CAP <= PH_STATES && PH_TERMS + PH_NTERMS <= PH_SYMS)
 struct rule_info { size16_t l_idx; size16_t r_idx; size16_t r_elements; };
